@@ -171,3 +171,20 @@ def run(ctx):
                 if longest != want[tname]:
                     probs.append(f"strips {[fmt_n(x) for x in longest]}, expected {[fmt_n(x) for x in want[tname]]}")
         ctx.add("R10.5", f"C10/fromstr-consts/{tname}", not probs, "; ".join(sorted(set(probs))), site_of(ff) if ff else None)
+
+# ---- R10.6 (shared with C18 probes P35–P40): the crates' public type aliases name the kind/purpose/version they say they name
+# (a `PieWrappedSecretKey` that is really `PieWrappedKey<V, Local>` parses the other kind's strings under the wrong name).
+_run_c10 = run
+def run(ctx):
+    _run_c10(ctx)
+    import c18
+    class Scratch:
+        def __init__(s): s.findings = []; s.world = ctx.world; s.crates = ctx.crates; s.analysed = {"functions": 0, "paths": 0, "call_sites": 0}; s.notes = []; s.tier = ctx.tier; s.facts_dir = ctx.facts_dir
+        def add(s, rule, k, ok, detail="", site=None, facts=None): s.findings.append((rule, k, ok, detail, site))
+        def sample(s, x): pass
+    sc = Scratch()
+    c18.run(sc)
+    for (rule, k, ok, detail, site) in sc.findings:
+        if rule == "R18.2" and re.search(r"/P(3[5-9]|40)[a-c]?$", k):
+            ctx.add("R10.6", "C10/alias-kind/" + k.split("/", 2)[-1], ok, detail, site)
+FLOORS["R10.6"] = 40
